@@ -1916,6 +1916,12 @@ val gcase_handshake : case list g
 
 val gmany : nat -> case list g -> case list g
 
+val gcase_message : case list g
+
+val grecord : (byte list * tlsPlaintext) g
+
+val gcase_multi : case list g
+
 val families_tls : (string * case list g) list
 
 val all_families : (string * case list g) list
